@@ -6,11 +6,26 @@ package sym
 import (
 	"fmt"
 	"regexp"
+	"unicode/utf8"
 )
 
 type nativeObj struct{ v any }
 
 func init() {
+	// EncodeRune writes into its argument: done on the interpreter's slice
+	intrinsics["unicode/utf8.EncodeRune"] = func(fr *frame, a []value) value {
+		p := a[0].([]value)
+		r := rune(asInt64(fr.i.concretize(a[1])))
+		var buf [4]byte
+		n := utf8.EncodeRune(buf[:], r)
+		if n > len(p) {
+			panic(runtimeError("index out of range"))
+		}
+		for k := 0; k < n; k++ {
+			p[k] = buf[k]
+		}
+		return n
+	}
 	// ulid: arbitrary but pairwise distinct ids (the library's contract)
 	intrinsics["github.com/titpetric/vuego/internal/ulid.String"] = func(fr *frame, a []value) value {
 		fr.i.ulidCounter++
